@@ -1,8 +1,8 @@
 """C12  Bath correlation functions and their 2D integrals are consistent and correct.
 
-Exhaustive product  class x cut-off x zeta x temperature x cut-off frequency x alpha x dt  (objects), and for
-every object the full list of cells (triangle, squares k=1..3, rectangles of widths 0.5/1/2.5 dt at k=1,3,
-triangle at time_1=dt).  Every cell returned by the real correlation_2d_integral() is compared with
+Exhaustive product  class x cut-off x zeta x temperature x cut-off frequency x alpha  (objects) x dt, and for every
+(object, dt) the full list of cells (triangle, squares k=1..3, rectangles of widths 0.5/1/2.5 dt at k=1,3, triangle
+at time_1=dt).  Every cell returned by the real correlation_2d_integral() is compared with
 
   A  "spectral":  own frequency-space quadrature with the exact kernel of the cell (props/c12_oracle.py);
   B  "selfint" :  1D Gauss-Legendre integration of the object's OWN correlation() with the overlap weight of the
@@ -11,11 +11,14 @@ triangle at time_1=dt).  Every cell returned by the real correlation_2d_integral
   T  "tiling"  :  sum of the cells of the first n steps == triangle of side n dt (n=2..4), long rectangle ==
                   squares + short rectangle, rectangle of width dt == square;
   Y/P          :  C(-tau) == conj C(tau),  Re triangle > 0;
-  X  "class"   :  CustomSD fed the power-law j  == PowerLawSD; CustomCorrelations fed the closed form C;
-  M  "matsubara": imaginary-time C and cells are real floats and equal the own imaginary-time quadrature.
+  X  "class"   :  CustomSD fed the power-law j  == PowerLawSD; CustomCorrelations fed the closed form C / one mode;
+  M  "matsubara": imaginary-time C and cells (beta split into N steps, as GibbsTempo does) are finite real floats,
+                  equal the own imaginary-time quadrature and obey the KMS symmetry  D(beta - tau) = D(tau).
 """
 import itertools
 import math
+import sys
+import time
 import warnings
 
 import numpy as np
@@ -27,20 +30,23 @@ oq = bind_repo()
 LEVEL = "exploration"
 
 EPSREL = 2.0 ** -26          # oqupy.config.INTEGRATE_EPSREL, the tolerance every library call here asks for
-# tolerance = C * EPSREL * S, S = sum of |eta| at the corner times of the cell (the library forms cells as second
-# differences of eta, so its absolute error scales with |eta|, not with the cell).  Two regimes (measured, see run()):
-C_ROUNDOFF = 3400.0          # zeta < 1 and T > 0: thermal kernel is evaluated with cancellation at small w
-C_SMOOTH = 70.0              # everything else
+# tolerance of a cell = C_SMOOTH * EPSREL * S (+ noise term), S = sum of |eta| at the corner times of the cell: the
+# library forms cells as second differences of eta, so its absolute error scales with |eta|, not with the cell.
+C_SMOOTH = 70.0
+C_NOISE = 30.0               # extra, only for power laws with zeta < 1 at T > 0: C_NOISE * EPSREL * T * 2 alpha wc^(1-zeta)
+                             # per eta term.  The library's thermal kernel is evaluated with cancellation at small w,
+                             # which leaves an ABSOLUTE error ~ eps_machine * T * J(w) / w^3 (IntegrationWarning is issued)
 C_POINT = 70.0               # C(tau) against own quadrature, scale |C(0)|
-TOL_EXACT = 1e-11            # relations that hold identically in exact arithmetic on identical eta calls
+TOL_EXACT = 1e-11            # relations that hold bit-for-bit up to rounding (C(-tau) = conj C(tau))
 ACTIVE = 30.0                # a cell is non-trivial iff |cell| >= ACTIVE * tolerance (a factor-2 bug is a >= 30 tol effect)
 
 GL_ORDER = 8                 # per piece of length dt/2 (check B)
-GUARD = -math.log(np.finfo(float).eps)      # library switches integrand where w/T > 36.04
+GUARD = -math.log(np.finfo(float).eps)      # the library switches integrand where w / T > 36.04
 
 T_ALPHABET = ["0", "0.02wc", "0.14wc", "1", "50"]      # simplest first
 CELLS = ([("tri", "upper-triangle", 0.0, None)] + [(f"sq{k}", "square", float(k), None) for k in (1, 2, 3)]
          + [(f"rect{k}+{r}", "rectangle", float(k), float(k) + r) for k in (1, 3) for r in (0.5, 1.0, 2.5)])
+SD_CLASSES = ("PowerLawSD", "CustomSD", "CustomSD-resonance")
 
 
 def temperature(tkey, wc):
@@ -53,7 +59,7 @@ def temperature(tkey, wc):
 # objects
 
 def make_object(ob):
-    """ob = dict(cls, ctype, zeta, T (key), wc, alpha) -> (library object, Spectrum oracle or None, meta)"""
+    """ob = dict(cls, ctype, zeta, T (key), wc, alpha) -> (library object, Spectrum oracle or None, temperature)"""
     cls, ctype, zeta, wc, alpha = ob["cls"], ob["ctype"], ob["zeta"], ob["wc"], ob["alpha"]
     temp = temperature(ob["T"], wc)
     if cls == "PowerLawSD":
@@ -93,10 +99,15 @@ class Oracle:
         return abs(self.real(O.k_eta(t), t)) if t > 0 else 0.0
 
 
-def tol_const(ob, temp):
+def noise_unit(ob, temp):
     if ob["cls"] in ("PowerLawSD", "CustomSD") and ob["zeta"] < 1.0 and temp > 0.0:
-        return C_ROUNDOFF
-    return C_SMOOTH
+        return EPSREL * temp * 2.0 * ob["alpha"] * ob["wc"] ** (1.0 - ob["zeta"])
+    return 0.0
+
+
+def tol_fn(ob, temp):
+    nu = noise_unit(ob, temp)
+    return lambda s, nterms: C_SMOOTH * EPSREL * s + C_NOISE * nu * nterms
 
 
 def tclass(temp):
@@ -104,31 +115,38 @@ def tclass(temp):
 
 
 def shape_class(name):
-    return {"t": "triangle", "s": "square", "r": "rectangle"}[name[0]] if not name.startswith("tri@") else "triangle@time_1>0"
+    if name.startswith("tri@"):
+        return "triangle@time_1>0"
+    if name.startswith("tri("):
+        return "triangle(n dt)"
+    if name.startswith("C("):
+        return "C(tau)"
+    return {"t": "triangle", "s": "square", "r": "rectangle"}[name[0]]
 
 
 # ------------------------------------------------------------------------------------------------
 # one case = one object x one dt: all cells, all checks
 
 def eval_case(case):
-    ob, dt = case["ob"], case["dt"]
+    t0 = time.process_time()
     with warnings.catch_warnings(record=True) as wl:
         warnings.simplefilter("always")
-        out = _eval_case(ob, dt, case.get("selfint", True))
+        out = _eval_case(case["ob"], case["dt"], case.get("selfint", True))
     out["n_warnings"] = len(wl)
+    out["cpu"] = time.process_time() - t0
     return out
 
 
 def _eval_case(ob, dt, do_selfint):
     recs = []       # (check, cellname, dev, tol, lib, ref)
+    stats = []      # (check, cellname, dev, S, nterms) for calibration of the constants
     info = {}
     try:
         lib, sp, temp = make_object(ob)
     except Exception as ex:  # noqa
         return {"exc": f"construct|{type(ex).__name__}: {ex}"[:200], "recs": [], "info": {}}
     orc = Oracle(ob, sp, temp)
-    cconst = tol_const(ob, temp)
-    is_sd = ob["cls"] in ("PowerLawSD", "CustomSD", "CustomSD-resonance")
+    tolf = tol_fn(ob, temp)
     closed = ob["cls"] in ("PowerLawSD", "CustomSD", "CustomCorrelations") and ob["ctype"] == "exponential" and temp == 0.0
 
     def libcell(shape, t1, t2, delta=dt):
@@ -143,9 +161,9 @@ def _eval_case(ob, dt, do_selfint):
             eta_cache[key] = orc.eta_abs(t)
         return eta_cache[key]
 
-    # ---- library values and oracle A
-    vals, refs, tols, active = {}, {}, {}, {}
+    vals, refs, tols, active, scl = {}, {}, {}, {}, {}
     try:
+        # ---- library values, oracle A, closed forms
         for name, shape, k, k2 in CELLS:
             t1 = k * dt
             t2 = None if k2 is None else k2 * dt
@@ -158,31 +176,35 @@ def _eval_case(ob, dt, do_selfint):
                 kern, corners = O.k_rect(t1, t2, dt), [t2, t1, t2 - dt, t1 - dt]
             ref = orc.real(kern, max(corners))
             s = sum(eta_abs(t) for t in corners)
-            tol = cconst * EPSREL * s
-            vals[name], refs[name], tols[name] = v, ref, tol
+            nt = sum(1 for t in corners if t > 0)
+            tol = tolf(s, nt)
+            vals[name], refs[name], tols[name], scl[name] = v, ref, tol, (s, nt)
             active[name] = abs(ref) / tol
             recs.append(("spectral", name, abs(v - ref), tol, v, ref))
+            stats.append(("spectral", name, abs(v - ref), s, nt))
             if closed:
                 cf = O.closed_cell(ob["alpha"], ob["zeta"], ob["wc"], shape, dt, t1, t2)
                 recs.append(("closed", name, abs(v - cf), tol, v, complex(cf)))
-        # ---- triangle placed at time_1 = dt: documented integral  int_{t1}^{t1+D} int_0^{t'-t1} C(t'-t'')
+        # ---- triangle placed at time_1 = dt: documented integral  int_{t1}^{t1+D} int_0^{t'-t1} C(t'-t'') dt'' dt'
         v = libcell("upper-triangle", dt, None)
         ref = orc.real(O.k_tri(dt, dt), 2 * dt)
-        tol = cconst * EPSREL * (eta_abs(2 * dt) + eta_abs(dt))
+        s = eta_abs(2 * dt) + eta_abs(dt)
+        tol = tolf(s, 2)
         alt = orc.real(O.k_eta(2 * dt), 2 * dt) - orc.real(O.k_eta(dt), dt)
-        vals["tri@1"], refs["tri@1"], tols["tri@1"] = v, ref, tol
+        vals["tri@1"], refs["tri@1"], tols["tri@1"], scl["tri@1"] = v, ref, tol, (s, 2)
         active["tri@1"] = abs(ref - alt) / tol
         recs.append(("spectral", "tri@1", abs(v - ref), tol, v, ref))
-        info["tri@1_equals_eta_difference"] = bool(abs(v - alt) <= tol)
+        info["tri@1_equals_eta_difference"] = bool(abs(v - alt) <= tol < abs(v - ref))
         # ---- tiling
         for n in (2, 3, 4):
             big = libcell("upper-triangle", 0.0, None, delta=n * dt)
             parts = n * vals["tri"] + sum((n - k) * vals[f"sq{k}"] for k in range(1, n))
-            tol_big = cconst * EPSREL * eta_abs(n * dt)
+            tol_big = tolf(eta_abs(n * dt), 1)
             tol = tol_big + n * tols["tri"] + sum((n - k) * tols[f"sq{k}"] for k in range(1, n))
             recs.append(("tiling", f"tri(n={n})", abs(big - parts), tol, big, parts))
             refn = orc.real(O.k_eta(n * dt), n * dt)
             recs.append(("spectral", f"tri(n={n})", abs(big - refn), tol_big, big, refn))
+            stats.append(("spectral", f"tri(n={n})", abs(big - refn), eta_abs(n * dt), 1))
             if not big.real > 0:
                 recs.append(("positivity", f"tri(n={n})", abs(big.real) + 1e-300, 0.0, big, refn))
         parts = vals["sq1"] + vals["sq2"] + vals["rect3+0.5"]
@@ -199,17 +221,18 @@ def _eval_case(ob, dt, do_selfint):
         for tau in (0.5 * dt, 3.0 * dt):
             cp = complex(lib.correlation(tau))
             cm = complex(lib.correlation(-tau))
-            recs.append(("symmetry", f"C({tau / dt:g}dt)", abs(cm - np.conj(cp)), TOL_EXACT * c0, cm, np.conj(cp)))
+            nm = f"C({tau / dt:g}dt)"
+            recs.append(("symmetry", nm, abs(cm - np.conj(cp)), TOL_EXACT * c0, cm, np.conj(cp)))
             ref = orc.real(O.k_point(tau), tau)
-            recs.append(("spectral", f"C({tau / dt:g}dt)", abs(cp - ref), C_POINT * EPSREL * c0, cp, ref))
+            recs.append(("spectral", nm, abs(cp - ref), C_POINT * EPSREL * c0, cp, ref))
             if closed:
                 cf = complex(O.closed_c(ob["alpha"], ob["zeta"], ob["wc"], tau))
-                recs.append(("closed", f"C({tau / dt:g}dt)", abs(cp - cf), C_POINT * EPSREL * c0, cp, cf))
+                recs.append(("closed", nm, abs(cp - cf), C_POINT * EPSREL * c0, cp, cf))
         # ---- check B: integrate the object's own correlation() with the overlap weight of each cell
         if do_selfint:
             x, wt = O.gl(GL_ORDER)
             h = 0.25 * dt
-            npieces = 11
+            npieces = 11         # [0, 5.5 dt] in pieces of dt/2; every break point of every weight is a piece boundary
             nodes = np.concatenate([(2 * j + 1) * h + h * x for j in range(npieces)])
             wts = np.concatenate([h * wt for _ in range(npieces)])
             cn = np.array([complex(lib.correlation(float(s))) for s in nodes])
@@ -223,6 +246,8 @@ def _eval_case(ob, dt, do_selfint):
                     wfun = O.weight_rect(t1, k2 * dt, dt)
                 own = complex(np.sum(cn * wfun(nodes) * wts))
                 recs.append(("selfint", name, abs(vals[name] - own), tols[name], vals[name], own))
+                if name != "tri@1":
+                    stats.append(("selfint", name, abs(vals[name] - own)) + scl[name])
     except Exception as ex:  # noqa
         import traceback
         return {"exc": f"{type(ex).__name__}: {ex}"[:200], "tb": traceback.format_exc()[-600:], "recs": recs, "info": info}
@@ -237,59 +262,93 @@ def _eval_case(ob, dt, do_selfint):
         info["guard_else_weight_below_wc"] = float(abs(complex(np.sum((jwc * k.real)[m1]), np.sum((jw * k.imag)[m1]))) / tot)
     info["selfcheck"] = sp.worst_selfcheck if sp is not None else 0.0
     info["active"] = active
+    info["stats"] = stats
     info["vals"] = {k: [v.real, v.imag] for k, v in vals.items()}
-    info["rel_cell_dev"] = max([abs(vals[n] - refs[n]) / abs(refs[n]) for n in refs if active[n] >= ACTIVE and n != "tri@1"]
-                               + [0.0])
     return {"exc": None, "recs": recs, "info": info}
 
 
 # ------------------------------------------------------------------------------------------------
 # Matsubara: beta = 1/T split into N steps (what GibbsTempo asks for)
 
+def _is_real_number(v):
+    return (not isinstance(v, complex)) and (not np.iscomplexobj(v)) and bool(np.isfinite(v))
+
+
 def eval_matsubara(case):
+    t0 = time.process_time()
     ob, nst = case["ob"], case["N"]
-    recs, info = [], {}
+    recs, info, stats = [], {}, []
+    pinned = {}
     with warnings.catch_warnings():
         warnings.simplefilter("ignore")
         try:
             lib, sp, temp = make_object(ob)
             beta = 1.0 / temp
             d = beta / nst
-            cconst = tol_const(ob, temp)
+            tolf = tol_fn(ob, temp)
+            w0 = GUARD * temp
             eta = {0: 0.0}
             for k in range(1, nst + 1):
-                eta[k] = abs(sp.integrate(O.km_tri(k * d, beta), imaginary_time=True))
-            active = {}
+                eta[k] = abs(sp.integrate_m(O.km_tri(k * d, beta)))
+            active, got, gtol = {}, {}, {}
             for k in range(nst):
                 shape = "upper-triangle" if k == 0 else "square"
                 v = lib.correlation_2d_integral(d, k * d, shape=shape, matsubara=True)
                 name = "tri" if k == 0 else f"sq{k}"
-                if isinstance(v, complex) or np.iscomplexobj(v) or not np.isfinite(v):
+                if not _is_real_number(v):
                     recs.append(("matsubara-real", name, 1.0, 0.0, complex(v), 0.0))
                     continue
-                if k == 0:
-                    ref = sp.integrate(O.km_tri(d, beta), imaginary_time=True)
-                    s = eta[1]
-                else:
-                    ref = sp.integrate(O.km_rect(k * d, (k + 1) * d, d, beta), imaginary_time=True)
-                    s = eta[k + 1] + 2 * eta[k] + eta[k - 1]
-                tol = cconst * EPSREL * s
+                # analytic continuation t = -i tau of the real-time double integral: measure (-i)^2 = -1
+                kern = O.km_tri(d, beta) if k == 0 else O.km_rect(k * d, (k + 1) * d, d, beta)
+                s, nt = (eta[1], 1) if k == 0 else (eta[k + 1] + 2 * eta[k] + eta[k - 1], 4 if k > 1 else 3)
+                ref = -sp.integrate_m(kern)
+                tol = tolf(s, nt)
                 active[name] = abs(ref) / tol
-                recs.append(("matsubara-value", name, abs(float(v) - ref), tol, float(v), ref))
-            c0 = abs(sp.integrate(O.km_point(0.0, beta), imaginary_time=True))
-            for frac in (0.25, 0.5, 1.0):
+                got[name], gtol[name] = float(v), tol
+                dev = abs(float(v) - ref)
+                recs.append(("matsubara-value", name, dev, tol, float(v), ref))
+                stats.append(("matsubara-value", name, dev, s, nt))
+                if dev > tol:
+                    model = -sp.integrate_m(kern, drop_above=w0)
+                    pinned[name] = bool(abs(float(v) - model) <= tol)
+            for k in range(1, nst):
+                if k < nst - k and f"sq{k}" in got and f"sq{nst - k}" in got:
+                    a, b = got[f"sq{k}"], got[f"sq{nst - k}"]
+                    recs.append(("matsubara-kms", f"sq{nst - k}", abs(a - b), gtol[f"sq{k}"] + gtol[f"sq{nst - k}"], b, a))
+            c0 = abs(sp.integrate_m(O.km_point(0.0, beta)))
+            cv = {}
+            for frac in (0.0, 0.25, 0.5, 0.75, 1.0):
                 v = lib.correlation(frac * beta, matsubara=True)
-                if isinstance(v, complex) or np.iscomplexobj(v) or not np.isfinite(v):
-                    recs.append(("matsubara-real", f"C({frac}beta)", 1.0, 0.0, complex(v), 0.0))
+                name = f"C({frac:g}beta)"
+                if not _is_real_number(v):
+                    recs.append(("matsubara-real", name, 1.0, 0.0, complex(v), 0.0))
                     continue
-                ref = sp.integrate(O.km_point(frac * beta, beta), imaginary_time=True)
-                recs.append(("matsubara-value", f"C({frac}beta)", abs(float(v) - ref), C_POINT * EPSREL * c0, float(v), ref))
+                kern = O.km_point(frac * beta, beta)
+                ref = sp.integrate_m(kern)
+                tol = C_POINT * EPSREL * c0
+                dev = abs(float(v) - ref)
+                cv[frac] = float(v)
+                recs.append(("matsubara-value", name, dev, tol, float(v), ref))
+                if dev > tol:
+                    model = sp.integrate_m(kern, drop_above=w0)
+                    pinned[name] = bool(abs(float(v) - model) <= tol)
+            for fa, fb in ((0.0, 1.0), (0.25, 0.75)):
+                if fa in cv and fb in cv:
+                    recs.append(("matsubara-kms", f"C({fb:g}beta)", abs(cv[fa] - cv[fb]), 2 * C_POINT * EPSREL * c0, cv[fb], cv[fa]))
+            # vacuity: weight of w > 36 T in D(beta) = D(0)
+            kern = O.km_point(beta, beta)
+            full = sp.integrate_m(kern)
+            part = sp.integrate_m(kern, drop_above=w0)
+            info["guard_drop_fraction_of_D(beta)"] = float(abs(full - part) / abs(full))
             info["active"] = active
+            info["stats"] = stats
+            info["pinned"] = pinned
             info["selfcheck"] = sp.worst_selfcheck
         except Exception as ex:  # noqa
             import traceback
-            return {"exc": f"{type(ex).__name__}: {ex}"[:200], "tb": traceback.format_exc()[-600:], "recs": recs, "info": info}
-    return {"exc": None, "recs": recs, "info": info}
+            return {"exc": f"{type(ex).__name__}: {ex}"[:200], "tb": traceback.format_exc()[-600:], "recs": recs,
+                    "info": info, "cpu": time.process_time() - t0}
+    return {"exc": None, "recs": recs, "info": info, "cpu": time.process_time() - t0}
 
 
 # ------------------------------------------------------------------------------------------------
@@ -314,12 +373,13 @@ def objects(tier):
 
 def build_cases(tier):
     cases = []
-    for ob in objects(tier):
+    obs = objects(tier)
+    for ob in obs:
         for dt in (0.3, 0.05):
             # CustomSD with the power-law j runs exactly PowerLawSD's code: check B is done on PowerLawSD only
             cases.append({"ob": ob, "dt": dt, "selfint": ob["cls"] != "CustomSD"})
     mats = []
-    for ob in objects(tier):
+    for ob in obs:
         if ob["cls"] in ("PowerLawSD", "CustomSD-resonance") and ob["T"] != "0":
             for n in ([4] if tier == "quick" else [4, 10]):
                 mats.append({"ob": ob, "N": n})
@@ -332,15 +392,20 @@ def ob_key(ob):
 
 def violation_class(ob, check, name, info):
     temp = temperature(ob["T"], ob["wc"])
-    sc = shape_class(name) if not name.startswith("C(") and not name.startswith("tri(") else \
-        ("C(tau)" if name.startswith("C(") else "triangle(n dt)")
-    sig = f"{check}-mismatch"
-    if check == "positivity":
-        sig = "real-part-not-positive"
-    if check == "matsubara-real":
-        sig = "not-a-finite-real"
+    sc = shape_class(name)
     if name == "tri@1" and check in ("spectral", "selfint") and info.get("tri@1_equals_eta_difference"):
-        sig = f"{check}-mismatch:equals-eta(t1+D)-eta(t1)"
+        # pinned signature: the value is eta(t1+D)-eta(t1), i.e. t'' runs up to t' instead of t'-t1
+        return f"{ob['cls']}|triangle@time_1>0|equals-eta(t1+D)-eta(t1)-not-the-documented-integral"
+    if check.startswith("matsubara"):
+        if check == "matsubara-real":
+            return f"{ob['cls']}|{ob['ctype']}|matsubara|{sc}|not-a-finite-real"
+        if check == "matsubara-kms":
+            return f"{ob['cls']}|matsubara|{sc}|kms-asymmetry"
+        if info.get("pinned", {}).get(name):
+            # pinned signature: equals the integral in which, above w = 36.04 T, only exp(-w tau) is kept
+            return f"{ob['cls']}|matsubara|{sc}|value-drops-exp(-w(beta-tau))-above-overflow-guard"
+        return f"{ob['cls']}|{ob['ctype']}|matsubara|{sc}|value-mismatch"
+    sig = "real-part-not-positive" if check == "positivity" else f"{check}-mismatch"
     return f"{ob['cls']}|{ob['ctype']}|{tclass(temp)}|{sc}|{sig}"
 
 
@@ -351,9 +416,8 @@ def judge(case, res, matsubara=False):
     base.update({"N": case["N"]} if matsubara else {"dt": case["dt"]})
     out = []
     if res["exc"]:
-        temp_s = ob["T"]
-        out.append((f"{ob['cls']}|{ob['ctype']}|T={temp_s}|exception:{res['exc'].split(':')[0]}", res["exc"],
-                    dict(base, check="exception", cell="")))
+        out.append((f"{ob['cls']}|{ob['ctype']}|T={ob['T']}|{'matsubara|' if matsubara else ''}exception:"
+                    f"{res['exc'].split(':')[0]}", res["exc"], dict(base, check="exception", cell="")))
     for check, name, dev, tol, v, ref in res["recs"]:
         if not dev <= tol:
             cls = violation_class(ob, check, name, res["info"])
@@ -371,45 +435,60 @@ def run(tier, seed):
 
     nontrivial = set()
     n_eval = 0
-    worst = {}          # check -> (ratio, what)
-    max_raw = {"roundoff": 0.0, "smooth": 0.0}
+    worst = {}          # check -> (ratio, what)   (passing comparisons only: the head-room actually available)
+    max_smooth = 0.0    # max dev / S              over objects without noise term
+    max_noise = 0.0     # max dev / (noise unit * nterms)   over objects with noise term
+    max_noise_rel = 0.0
     min_active = 1e300
-    guard = {}
+    guard, mguard = {}, {}
     selfcheck = 0.0
     nwarn = 0
-    tri1 = {"documented": 0, "eta-difference": 0}
+    cpu = 0.0
+    tri1 = {"documented": 0, "eta-difference": 0, "neither": 0}
     by_key = {}
     for c, r in list(zip(cases, res)) + list(zip(mats, mres)):
         is_m = "N" in c
+        ob = c["ob"]
         for cls, what, rp in judge(c, r, matsubara=is_m):
             rep.add(Violation(cls, what, rp))
         n_eval += len(r["recs"])
         nwarn += r.get("n_warnings", 0)
+        cpu += r.get("cpu", 0.0)
         info = r["info"]
         selfcheck = max(selfcheck, info.get("selfcheck", 0.0))
+        tag = f"{ob_key(ob)} {'N=%d' % c['N'] if is_m else 'dt=%g' % c['dt']}"
         for check, name, dev, tol, v, ref in r["recs"]:
-            if tol > 0:
-                q = dev / tol
-                if q > worst.get(check, (0.0, ""))[0] and not (name == "tri@1" and q > 1):
-                    worst[check] = (q, f"{ob_key(c['ob'])} {'N=%d' % c['N'] if is_m else 'dt=%g' % c['dt']} {name}")
+            if tol > 0 and dev <= tol and dev / tol > worst.get(check, (0.0, ""))[0]:
+                worst[check] = (dev / tol, f"{tag} {name}")
         if r["exc"]:
             continue
-        temp = temperature(c["ob"]["T"], c["ob"]["wc"])
-        reg = "roundoff" if tol_const(c["ob"], temp) == C_ROUNDOFF else "smooth"
-        for check, name, dev, tol, v, ref in r["recs"]:
-            if check in ("spectral", "selfint", "matsubara-value") and tol > 0 and name != "tri@1" and name[0] != "C":
-                max_raw[reg] = max(max_raw[reg], dev / tol * tol_const(c["ob"], temp) * EPSREL)     # = dev / sum|eta|
+        temp = temperature(ob["T"], ob["wc"])
+        nu = noise_unit(ob, temp)
+        bad = {(ch, n) for ch, n, dev, tol, v, ref in r["recs"] if not dev <= tol}
+        for check, name, dev, s, nt in info.get("stats", []):
+            if (check, name) in bad:
+                continue
+            if nu == 0.0:
+                max_smooth = max(max_smooth, dev / s)
+            else:
+                max_noise = max(max_noise, dev / (nu * nt))
+                max_noise_rel = max(max_noise_rel, dev / s)
         for name, a in info.get("active", {}).items():
             if a >= ACTIVE:
-                nontrivial.add((ob_key(c["ob"]), "M%d" % c["N"] if is_m else c["dt"], name))
+                nontrivial.add((ob_key(ob), "M%d" % c["N"] if is_m else c["dt"], name))
                 min_active = min(min_active, a)
-        if not is_m:
-            by_key[(ob_key(c["ob"]), c["dt"])] = info["vals"]
-            if "guard_else_weight" in info and c["ob"]["cls"] == "PowerLawSD":
-                g = guard.setdefault(c["ob"]["T"], {"max_weight": 0.0, "max_weight_below_wc": 0.0})
-                g["max_weight"] = max(g["max_weight"], info["guard_else_weight"])
-                g["max_weight_below_wc"] = max(g["max_weight_below_wc"], info["guard_else_weight_below_wc"])
-            tri1["eta-difference" if info.get("tri@1_equals_eta_difference") else "documented"] += 1
+        if is_m:
+            if ob["cls"] == "PowerLawSD":
+                g = mguard.setdefault(ob["T"], 0.0)
+                mguard[ob["T"]] = max(g, info["guard_drop_fraction_of_D(beta)"])
+            continue
+        by_key[(ob_key(ob), c["dt"])] = info["vals"]
+        if "guard_else_weight" in info and ob["cls"] == "PowerLawSD":
+            g = guard.setdefault(ob["T"], {"max_weight": 0.0, "max_weight_below_wc": 0.0})
+            g["max_weight"] = max(g["max_weight"], info["guard_else_weight"])
+            g["max_weight_below_wc"] = max(g["max_weight_below_wc"], info["guard_else_weight_below_wc"])
+        t1bad = ("spectral", "tri@1") in bad
+        tri1["documented" if not t1bad else ("eta-difference" if info.get("tri@1_equals_eta_difference") else "neither")] += 1
 
     # ---- class agreement: CustomSD(power-law j) against PowerLawSD, value by value
     n_class = 0
@@ -423,10 +502,10 @@ def run(tier, seed):
         ob = dict(zip(("cls", "ctype", "zeta", "T", "wc", "alpha"), key))
         temp = temperature(ob["T"], ob["wc"])
         scale = max(abs(complex(*twin[n])) for n in twin)
+        tol = tol_fn(ob, temp)(scale, 4)
         for n in vals:
             n_class += 1
             d = abs(complex(*vals[n]) - complex(*twin[n]))
-            tol = tol_const(ob, temp) * EPSREL * scale
             max_class = max(max_class, d / tol)
             if not d <= tol:
                 rep.add(Violation(f"CustomSD|{ob['ctype']}|{tclass(temp)}|{shape_class(n)}|class-agreement-mismatch",
@@ -435,6 +514,7 @@ def run(tier, seed):
     n_eval += n_class
 
     maxq = max([q for q, _ in worst.values()] + [max_class, 0.0])
+    print(f"[C12] worker cpu {cpu:.0f} s", file=sys.stderr)
     rep.coverage = {
         "evaluations": n_eval,
         "objects": len(objects(tier)),
@@ -446,20 +526,25 @@ def run(tier, seed):
                 "and a single-mode correlation callable (T x wc); each object x dt{0.3,0.05} x cells{triangle, squares "
                 "k=1..3, rectangles widths 0.5/1/2.5 dt at k=1,3, triangle at time_1=dt} x checks{spectral oracle, "
                 "integration of own correlation(), closed form, tilings n=2..4, symmetry, positivity, class agreement}; "
-                "Matsubara: objects with T>0 x N steps x cells k=0..N-1. evaluations = individual comparisons. A case "
-                "(object, dt or N, cell) is non-trivial iff |exact cell| >= 30 x its tolerance (so a factor-2 error in that "
-                "cell is a >= 30-tolerance effect; for the positioned triangle: the two candidate semantics differ by >= 30 tol)",
+                "Matsubara: (PowerLawSD, resonance) objects with T>0 x N steps x cells k=0..N-1 and C at 0, beta/4, beta/2, "
+                "3beta/4, beta. evaluations = individual comparisons. A case (object, dt or N, cell) is non-trivial iff "
+                "|exact cell| >= 30 x its tolerance (so a factor-2 error in that cell is a >= 30-tolerance effect; for the "
+                "positioned triangle: the two candidate semantics differ by >= 30 tol); distinct by (object, dt|N, cell)",
         "samples": [cases[seed % len(cases)], cases[(seed + 211) % len(cases)], mats[seed % len(mats)]],
         "exhaustive": True,
-        "max_dev": maxq * EPSREL, "tolerance": EPSREL, "max_dev_over_tol": maxq,
-        "tolerance_rule": f"|dev| <= C * epsrel * sum|eta(corner times)|, epsrel = 2^-26, C = {C_ROUNDOFF:g} for zeta<1 & T>0 "
-                          f"(round-off regime of the thermal kernel), C = {C_SMOOTH:g} otherwise; C(tau): {C_POINT:g} * epsrel * C(0); "
-                          "max_dev/tolerance are in units of C*epsrel*scale (ratio of deviation to the case's own tolerance)",
-        "worst_ratio_per_check": {k: {"dev_over_tol": v[0], "case": v[1]} for k, v in sorted(worst.items())},
-        "max_dev_over_scale": max_raw,
+        "max_dev": maxq, "tolerance": 1.0, "max_dev_over_tol": maxq,
+        "tolerance_rule": f"every comparison has its own tolerance: cells {C_SMOOTH:g}*epsrel*sum|eta(corner times)| "
+                          f"(+ {C_NOISE:g}*epsrel*T*2alpha*wc^(1-zeta) per eta term for power laws with zeta<1 at T>0), "
+                          f"C(tau) {C_POINT:g}*epsrel*C(0), epsrel = 2^-26; max_dev is the largest deviation of a passing "
+                          "comparison in units of its own tolerance (so tolerance = 1)",
+        "worst_passing_ratio_per_check": {k: {"dev_over_tol": v[0], "case": v[1]} for k, v in sorted(worst.items())},
+        "calibration": {"max_dev_over_sum_eta_smooth_objects": max_smooth, "allowed": C_SMOOTH * EPSREL,
+                        "max_dev_over_noise_unit_zeta<1_T>0": max_noise, "allowed_noise_units": C_NOISE,
+                        "max_dev_over_sum_eta_zeta<1_T>0": max_noise_rel},
         "class_agreement": {"comparisons": n_class, "max_dev_over_tol": max_class},
         "min_active_ratio_of_nontrivial": min_active,
         "guard_else_branch_weight_in_triangle": guard,
+        "matsubara_guard_dropped_fraction_of_D(beta)": mguard,
         "positioned_triangle_semantics": tri1,
         "oracle_selfcheck_max_rel_change_on_panel_doubling": selfcheck,
         "library_integration_warnings": nwarn,
@@ -469,9 +554,10 @@ def run(tier, seed):
         "against the T=0 exponential closed forms (<= 6e-13 relative) and by panel doubling (reported)",
         "only the default quadrature tolerance epsrel = 2^-26 of the library is exercised",
         "tolerances are scaled with |eta| at the corner times, because the library forms cells as differences of eta; for "
-        "zeta < 1 and T > 0 the library's thermal kernel loses digits at small w (IntegrationWarning) and a 50x wider "
-        "constant is used (measured: <= 1.7e-6 relative at dt >= 0.05, growing for smaller dt and zeta)",
-        "Matsubara integrals are only defined for T > 0 (the library raises for T = 0); N = 4 (10) steps of beta/N",
+        "zeta < 1 and T > 0 the library's thermal kernel loses digits at small w (IntegrationWarning) and an absolute "
+        "noise allowance proportional to T*alpha is added (measured: <= 1.7e-6 relative at dt >= 0.05, more for smaller dt)",
+        "Matsubara 2D integrals are the analytic continuation eta(-i tau) = - int int D (measure (-i)^2), D(tau) = C(-i tau); "
+        "they are only defined for T > 0 (the library raises for T = 0)",
         "C(-tau) = conj C(tau) is a property of the user's callable for CustomCorrelations; checked for the callables used",
     ]
     return rep
@@ -488,7 +574,7 @@ def replay(rp):
         scale = max(abs(complex(*vb[n])) for n in vb)
         n = rp["cell"]
         d = abs(complex(*va[n]) - complex(*vb[n]))
-        bad = not d <= tol_const(ob, temp) * EPSREL * scale
+        bad = not d <= tol_fn(ob, temp)(scale, 4)
         return {"obs": {"CustomSD": va[n], "PowerLawSD": vb[n]},
                 "violation": f"CustomSD|{ob['ctype']}|{tclass(temp)}|{shape_class(n)}|class-agreement-mismatch" if bad else None}
     if kind == "matsubara":
